@@ -25,6 +25,20 @@ static size_t build_valid(vp_rng_t* r, uint8_t* b, size_t plen, uint8_t seq)
     return 28 + plen;
 }
 
+/* payload that looks like an H.264 byte stream: runs of zero bytes, Annex-B start codes (00 00 01 / 00 00 00 01) at arbitrary
+ * places - also as the very last bytes, with nothing behind them - and a few NAL header bytes */
+static void h264ish(vp_rng_t* r, uint8_t* p, size_t plen)
+{
+    memset(p, 0, plen);
+    int k = (int)vp_rng_below(r, 5);
+    for (int i = 0; i < k && plen > 4; i++) {
+        size_t o = (size_t)vp_rng_below(r, plen - 4);
+        p[o + 2] = 1; p[o + 3] = (uint8_t)vp_rng_next(r);
+    }
+    if (plen >= 1 && (vp_rng_next(r) & 1)) p[plen - 1] = 1;                       /* bare start code ends the data */
+    else if (plen >= 2 && (vp_rng_next(r) & 1)) { p[plen - 2] = 1; p[plen - 1] = (uint8_t)(vp_rng_next(r) | 1); }
+}
+
 static void lst_make_sequence(vp_rng_t* r, int mode, uint64_t idx, seq_t* s)
 {
     (void)mode;
@@ -36,7 +50,7 @@ static void lst_make_sequence(vp_rng_t* r, int mode, uint64_t idx, seq_t* s)
         size_t n = build_valid(r, b, plen, (uint8_t)d);
         Avtp_Cvf_t* c = (Avtp_Cvf_t*)b;
         switch ((idx + (uint64_t)d * 5) % 14) {
-        case 0: name = "valid"; break;
+        case 0: name = "valid"; if (idx & 16) h264ish(r, b + 28, n - 28); break;
         case 1: name = "data-length-below-h264-header"; Avtp_Cvf_SetStreamDataLength(c, (uint16_t)vp_rng_below(r, 4)); break;
         case 2: name = "data-length-max"; Avtp_Cvf_SetStreamDataLength(c, 65535); break;
         case 3: name = "data-length-just-too-big"; Avtp_Cvf_SetStreamDataLength(c, (uint16_t)(1405 + vp_rng_below(r, 3))); break;
@@ -44,11 +58,11 @@ static void lst_make_sequence(vp_rng_t* r, int mode, uint64_t idx, seq_t* s)
         case 5: name = "truncate-any"; n = (size_t)vp_rng_below(r, n + 1); break;
         case 6: name = "truncate-0-64"; n = (size_t)vp_rng_below(r, 65); break;
         case 7: name = "empty-datagram"; n = 0; break;
-        case 8: name = "random-bytes"; n = (size_t)vp_rng_below(r, 1501); vp_rng_fill(r, b, n); break;
+        case 8: name = "random-bytes"; n = (size_t)vp_rng_below(r, 1601); vp_rng_fill(r, b, n);   /* up to 100 bytes more than any receive buffer holds */ break;
         case 9: name = "oversize-datagram"; n = 1500; vp_rng_fill(r, b + 28, 1472); Avtp_Cvf_SetStreamDataLength(c, 1476); break;
         case 10: name = "bit-flips"; mutate_bytes(r, b, n < 28 ? n : 28, 1 + (int)vp_rng_below(r, 3)); break;
         case 11: name = "wrong-subtype"; b[0] = (uint8_t)vp_rng_next(r); break;
-        case 12: name = "max-payload"; n = build_valid(r, b, 1400, 3); break;
+        case 12: name = "max-payload-h264-like"; n = build_valid(r, b, 1400 - (size_t)((idx >> 4) % 3), 3); h264ish(r, b + 28, n - 28); break;
         default: name = "data-length-random"; Avtp_Cvf_SetStreamDataLength(c, (uint16_t)vp_rng_next(r)); break;
         }
         seq_add(s, b, n);
